@@ -179,7 +179,7 @@ func init() {
 func c08IdleSpec(seed uint64, r *simnet.Rng, tr string) *spec.RunSpec {
 	s := genStreamSpec("C08", seed, streamGenOpts{transport: tr, maxBytes: 3000, maxSessions: 2, closeMode: "barrier", rich: false})
 	s.Scenario = "stream"
-	s.VirtualCapS = 6000
+	s.VirtualCapS = 12000 // two idle periods of up to an hour each, and the transfer
 	s.Server.RawMux = r.Bool(0.5)
 	idle := int64(r.Pick(1, 30, 59, 61, 119, 121, 179, 181, 239, 241, 299, 301, 600, 3600)) * 1000000
 	for ci := range s.Clients {
